@@ -99,7 +99,7 @@ def _family_tables(model: Model, L: RuleResult):
     mod = fw.module
     want = {}
     for fam, tname in (("rootfinder", "_RF_METHODS"), ("equilibrium", "_EQUIL_METHODS"), ("minimizer", "_OPT_METHODS")):
-        v = mod.assigns.get(tname)
+        v = mod.const(tname)
         if not isinstance(v, ast.Dict):
             raise AnchorError("family table %s vanished" % tname)
         want[fam] = {k.value for k in v.keys if isinstance(k, ast.Constant)}
@@ -300,7 +300,7 @@ def _keys(model: Model, sites, L: RuleResult):
     # documented names reachable
     for rel, (docname, _) in DOC_TABLES.items():
         m = model.module(rel)
-        v = m.assigns.get(docname)
+        v = m.const(docname)
         if not isinstance(v, ast.Dict):
             raise AnchorError("documentation table %s vanished from %s" % (docname, rel))
         pre = _predispatch_literals(model, rel)
